@@ -157,6 +157,21 @@ def handle (d : DState) (line : String) : Except String (DState × String) := do
           | v => do pure (some (← pList pNat v))
         let ch := argD a "choose" "pad" = "real"
         pure (d, s!"values={fList fRat (semiSweep p.P c γ V perm (fun _ => ch) 0)}")
+    | "cert" => do
+        -- verify certificates with the model's own operators, then report exact gaps
+        let p ← getP d (← arg a "id")
+        let γ ← pRat (← arg a "gamma")
+        let W ← pList pRat (← arg a "W"); let U ← pList pRat (← arg a "U")
+        let pol ← pList pNat (← arg a "pol"); let V ← pList pRat (← arg a "V")
+        let n := p.P.nS
+        let TW := (List.range n).map (backup p.P γ (look W))
+        let TU := (List.range n).map fun s => qval p.P γ (look U) s (pol.getD s 0)
+        let wfix := decide (TW = W) && W.length == n
+        let ufix := decide (TU = U) && U.length == n && pol.length == n && pol.all (· < p.P.nA)
+        let gaps := vsub W U
+        let vw := (vsub V W).map rabs
+        let vu := (vsub V U).map rabs
+        pure (d, s!"wfix={wfix} ufix={ufix} gapmin={fRat (minList gaps)} gapmax={fRat (maxList gaps)} vwmax={fRat (maxList vw)} vumax={fRat (maxList vu)}")
     | "qrow" => do
         let p ← getP d (← arg a "id")
         let γ ← pRat (← arg a "gamma"); let V ← pList pRat (← arg a "V"); let s ← pNat (← arg a "s")
